@@ -1309,7 +1309,14 @@ class Exec:  # an execution path
         """
         assert_bv(who)
         assert_address(who)
+        is_new_account = who not in self.code
         self.code[who] = code if isinstance(code, Contract) else Contract(code)
+
+        if is_new_account:
+            # a symbolic address that was resolved to "no such account" earlier on this path
+            # may be the very address that has just come into existence: resolve it again
+            for target in [t for t, addr in self.alias.items() if addr is None]:
+                del self.alias[target]
 
     def __str__(self) -> str:
         return self.dump()
